@@ -200,7 +200,7 @@ def crash_class(r, harness=None, mode=None, line=None):
     in_impl = bool(re.search(r'/wasi/wasi\.c:\d+', first))
     fn = re.search(r' in (\w+) [^\n]*/wasi/wasi\.c:(\d+)', text)
     where = '%s' % fn.group(1) if fn else '?'
-    return kind, in_impl, where, text[-1800:]
+    return kind, in_impl, where, text[:2500]
 
 
 def summary(r):
